@@ -132,36 +132,29 @@ theorem threshold_arith (cfg : Config) (anchor : Doc) :
 section Worker
 open HeartwoodModel.FetchWorker
 
-/-- **Counterexample for the current worker**: a clone (`existed = false`) whose `radicle_fetch::clone`
-returns `FetchResult::Failed` (delegate threshold not met) is reported as a failure, yet a repository
-directory is left in the node's storage: the temporary clone is renamed into storage before `Failed` is
-inspected. Confirmed on the real code through two real nodes (oracle class
-`failed-clone-leaves-repository`; `Storage::contains` then returns an error for that rid). -/
-theorem worker_failed_clone_leaves_repository_counterexample :
-    (workerFetch false .failed).success = false ∧ (workerFetch false .failed).dirPresent = true := by
-  decide
-
-/-- What holds of the current worker: apart from that case, a fetch that does not succeed leaves the
-presence of the repository as it was. -/
-theorem worker_unsuccessful_unchanged_partial (existed : Bool) (o : Outcome)
-    (hex : ¬ (existed = false ∧ o = .failed)) (h : (workerFetch existed o).success = false) :
-    (workerFetch existed o).dirPresent = existed := by
+/-- **C02 at the node level**: a fetch that does not succeed leaves the presence of the repository in the
+node's storage as it was, for every outcome of `radicle_fetch` (a failed clone leaves nothing behind, a
+failed pull keeps the repository). Together with `below_threshold_fails_unchanged` / `failed_unchanged` (the
+references of an existing repository are untouched) this is "reports failure and leaves local storage
+unchanged" one level above the anchored API. -/
+theorem worker_unsuccessful_unchanged (existed : Bool) (o : Outcome)
+    (h : (workerFetch existed o).success = false) : (workerFetch existed o).dirPresent = existed := by
   cases existed <;> cases o <;> simp_all [workerFetch, isSuccess]
 
-/-- **The repaired worker** (fixes-pending/C02-failed-clone-leaves-repo.patch: move the temporary clone into
-storage iff the fetch succeeded): a fetch that does not succeed leaves the presence of the repository as it
-was, for every outcome of `radicle_fetch`. Together with `below_threshold_fails_unchanged` /
-`failed_unchanged` (the references of an existing repository are untouched) this is "reports failure and
-leaves local storage unchanged" at the node level. -/
-theorem worker_repaired_unsuccessful_unchanged (existed : Bool) (o : Outcome)
-    (h : (workerFetchRepaired existed o).success = false) :
-    (workerFetchRepaired existed o).dirPresent = existed := by
-  cases existed <;> cases o <;> simp_all [workerFetchRepaired, isSuccess]
+/-- **Regression for the repaired defect c80785f** (oracle class `failed-clone-leaves-repository`, confirmed
+through two real nodes before the repair): the old worker renamed the temporary clone into storage before
+inspecting `FetchResult::Failed`, so a clone below the delegate threshold reported failure yet left a
+repository directory behind (`Storage::contains` then returned an error for that rid). -/
+theorem worker_failed_clone_regression :
+    (workerFetchBefore_c80785f false .failed).success = false ∧
+    (workerFetchBefore_c80785f false .failed).dirPresent = true ∧
+    (workerFetch false .failed).dirPresent = false := by
+  decide
 
-/-- Repaired and current worker agree whenever the fetch does not return `Failed` on a clone. -/
-theorem worker_repaired_agrees (existed : Bool) (o : Outcome) (hex : ¬ (existed = false ∧ o = .failed)) :
-    workerFetchRepaired existed o = workerFetch existed o := by
-  cases existed <;> cases o <;> simp_all [workerFetchRepaired, workerFetch, isSuccess]
+/-- Old and current worker differ only in that case. -/
+theorem worker_agrees_before_c80785f (existed : Bool) (o : Outcome) (hex : ¬ (existed = false ∧ o = .failed)) :
+    workerFetch existed o = workerFetchBefore_c80785f existed o := by
+  cases existed <;> cases o <;> simp_all [workerFetchBefore_c80785f, workerFetch, isSuccess]
 
 end Worker
 
